@@ -277,6 +277,10 @@ func (c *rc) Create(ctx context.Context, obj *unstructured.Unstructured, options
 	}
 	o := obj.DeepCopy()
 	o.SetNamespace(c.ns)
+	if c.s.StatusSub[c.gvr.Resource] {
+		// a resource with a status subresource ignores .status on create
+		delete(o.Object, "status")
+	}
 	c.s.nuid++
 	o.SetUID(types.UID(fmt.Sprintf("srv-uid-%d", c.s.nuid)))
 	o.SetResourceVersion("1")
